@@ -41,7 +41,8 @@ DEPRECATED = {"pyxel.observation.deprecated", "pyxel.calibration.fitting", "pyxe
 
 
 def _is_deepcopy(ctx, f: FuncInfo, e: ast.expr) -> ast.expr | None:
-    """If e is copy.deepcopy(x[, memo]) return x."""
+    """If e is copy.deepcopy(x[, memo]) - directly or through single-assignment locals - return x."""
+    e = expand(f, e)
     if isinstance(e, ast.Call) and e.args:
         ext = ctx.repo.external_name(f.module, e.func) or ""
         if ext == "copy.deepcopy":
